@@ -5261,7 +5261,8 @@ bool SoPlexBase<R>::multBasis(R* vec, bool unscale)
    {
       int colbasisdim = numRows();
 
-      DSVectorBase<R> y(colbasisdim);
+      // accumulate the product in a dense vector (basis columns may share rows)
+      VectorBase<R> y(colbasisdim);
 
       y.clear();
 
@@ -5294,7 +5295,7 @@ bool SoPlexBase<R>::multBasis(R* vec, bool unscale)
                assert(index < numRows());
                assert(!_solver.isRowBasic(index));
 
-               y.add(x[i] * UnitVectorBase<R>(index));
+               y[index] += x[i];
             }
             // r corresponds to a column vector
             else
@@ -5307,17 +5308,16 @@ bool SoPlexBase<R>::multBasis(R* vec, bool unscale)
                {
                   DSVectorBase<R> col;
                   _solver.getColVectorUnscaled(index, col);
-                  y.add(x[i] * col);
+                  y.multAdd(x[i], col);
                }
-
-               y.add(x[i] * _solver.colVector(index));
+               else
+                  y.multAdd(x[i], _solver.colVector(index));
             }
          }
       }
 
       spx_free(bind);
-      x = y;
-      std::copy(x.vec().begin(), x.vec().end(), vec);
+      std::copy(y.vec().begin(), y.vec().end(), vec);
    }
 
    return true;
